@@ -75,8 +75,26 @@ func (env *SpecEnv) errorf(format string, a ...interface{}) {
 	env.vc.prog.Errors = append(env.vc.prog.Errors, fmt.Sprintf("%s: spec error: %s", env.vc.unit, msg))
 }
 
+// safeEval: a clause that names something the code no longer has (a renamed or removed local) records a spec error - a
+// contract-binding violation - and may then build ill-sorted terms; that must end in the recorded error, not in a
+// generator panic.
+func (env *SpecEnv) safeEval(e ast.Expr) (v Val) {
+	defer func() {
+		if r := recover(); r != nil {
+			if !env.failed {
+				panic(r)
+			}
+			v = Val{}
+		}
+	}()
+	return env.eval(e)
+}
+
 func (vc *VC) specBool(env *SpecEnv, e ast.Expr) *Term {
-	v := env.eval(e)
+	v := env.safeEval(e)
+	if env.failed && (len(v.C) != 1 || v.C[0].Sort != SBool) {
+		return False
+	}
 	if len(v.C) != 1 || v.C[0].Sort != SBool {
 		env.errorf("expected boolean spec expression: %s", exprString(e))
 		return False
@@ -96,7 +114,7 @@ func (vc *VC) specAssumable(env *SpecEnv, e ast.Expr) *Term {
 }
 
 func (vc *VC) specInt(env *SpecEnv, e ast.Expr) *Term {
-	v := env.eval(e)
+	v := env.safeEval(e)
 	if len(v.C) != 1 || v.C[0].Sort != SInt {
 		env.errorf("expected integer spec expression: %s", exprString(e))
 		return Zero
